@@ -748,6 +748,10 @@ func newIndex(vals []reflect.Value, c ReflectListComparator) *index {
 }
 
 func reflectCompare(a, b reflect.Value) bool {
+	// keys of a map[interface{}]... arrive wrapped in their interface
+	if a.Kind() == reflect.Interface && b.Kind() == reflect.Interface {
+		a, b = a.Elem(), b.Elem()
+	}
 	if a.CanInt() {
 		return a.Int() < b.Int()
 	}
